@@ -14,6 +14,9 @@ import (
 	"os"
 	"time"
 
+	"seehuhn.de/go/sfnt/opentype/gtab"
+	"seehuhn.de/go/sfnt/opentype/gtab/testcases"
+
 	"verif.local/harness/internal/shapex"
 	"verif.local/harness/internal/vio"
 )
@@ -71,9 +74,53 @@ func runGuarded(b *shapex.Built, in []int) (out []shapex.Glyph, msg string, hung
 	}
 }
 
+// liftTests converts the repository's own GSUB test cases (opentype/gtab/testcases, built with the
+// lookup DSL) into abstract cases: the specification must reproduce the documented outcomes.
+func liftTests(outPath string) {
+	fg, err := testcases.NewFontGen()
+	if err != nil {
+		vio.Fatal(err)
+	}
+	type lifted struct {
+		Case *shapex.Case `json:"case"`
+		Name string       `json:"name"`
+		Want []int        `json:"want"` // glyph ids the repository's test expects
+		Skip string       `json:"skip,omitempty"`
+	}
+	var res []lifted
+	for idx, tc := range testcases.Gsub {
+		font, err := fg.GsubTestFont(idx)
+		if err != nil {
+			res = append(res, lifted{Name: tc.Name, Skip: err.Error()})
+			continue
+		}
+		var in, want []int
+		for _, r := range tc.In {
+			in = append(in, int(fg.CMap.Lookup(r)))
+		}
+		for _, r := range tc.Out {
+			want = append(want, int(fg.CMap.Lookup(r)))
+		}
+		c, err := shapex.Lift(idx+1, "repo-test", font.Gsub.LookupList, font.Gdef, []gtab.LookupIndex{0}, false, [][]int{in})
+		if err != nil {
+			res = append(res, lifted{Name: tc.Name, Skip: err.Error()})
+			continue
+		}
+		res = append(res, lifted{Case: c, Name: tc.Name, Want: want})
+	}
+	b, _ := json.Marshal(res)
+	if err := os.WriteFile(outPath, b, 0o644); err != nil {
+		vio.Fatal(err)
+	}
+}
+
 func main() {
+	if len(os.Args) >= 3 && os.Args[1] == "lift-tests" {
+		liftTests(os.Args[2])
+		return
+	}
 	if len(os.Args) < 4 {
-		vio.Fatal("usage: c06 replay|record ...")
+		vio.Fatal("usage: c06 replay|record|lift-tests ...")
 	}
 	cases := loadCases(os.Args[2])
 	built := map[int]*shapex.Built{}
